@@ -146,7 +146,7 @@ def run_shard(spec, seed, cases, workdir, extra_args=()):
         r["oracle"].append(f"HARNESS CRASH rc={rc}: {out[-600:]}")
         return r
     ops = os.path.join(workdir, "ops.txt")
-    if spec.get("mode") and os.path.exists(ops):
+    if spec.get("mode") and os.path.exists(ops) and open(ops).read().strip():
         with open(ops) as fin, open(os.path.join(workdir, "model.txt"), "w") as fout:
             p = subprocess.run([DRIVER] + spec["mode"].split(), stdin=fin, stdout=fout, stderr=subprocess.PIPE, text=True)
         if p.returncode != 0:
@@ -171,13 +171,13 @@ def run_shard(spec, seed, cases, workdir, extra_args=()):
     # monitors that live in the model (driver mode `image`): the decoder exists only in Lean, the harness
     # answers `skip`; a model line starting with `bad ` is a failure of the implementation's image (C16),
     # a non-zero leak counter a failure of the page accounting (C19)
-    if spec.get("mode") == "image" and os.path.exists(os.path.join(workdir, "model.txt")):
+    if spec.get("mode") == "image" and os.path.exists(os.path.join(workdir, "model.txt")) and open(ops).read().strip():
         o = open(ops).read().splitlines() if os.path.exists(ops) else []
         leaks = []
         engine_msgs, r["oracle"] = r["oracle"], []
         for i, line in enumerate(open(os.path.join(workdir, "model.txt")).read().splitlines()):
             op = o[i] if i < len(o) else ""
-            if line.startswith("bad ") and op.startswith("placement"):
+            if line.startswith("bad ") and (op.startswith("placement") or op.startswith("recovery")):
                 # the placement / order monitors judge the I/O trace of an operation against the pre-image: C17 (placement) and C04 (order)
                 tagp = "C04 order monitor" if line.startswith("bad order") else "C17 placement monitor"
                 r["oracle"].append(f"{tagp}: {line} ({op})")
@@ -354,7 +354,7 @@ def main():
                 # oracle messages are tagged with the property whose statement they contradict; a message
                 # tagged for a property outside this check's family is recorded but is not THIS property's violation
                 tag = re.match(r"^(?:\([^)]*\) )?(?:C16 history engine[^:]*: )?(C\d\d)\b", m)
-                if tag and "tags" in cfg and tag.group(1) not in allowed:
+                if tag and (("tags" in cfg and tag.group(1) not in allowed) or tag.group(1) in cfg.get("exclude_tags", [])):
                     other_prop.append(m)
                 else:
                     O_fail.append((r, m))
@@ -388,7 +388,7 @@ def main():
                         rel = []
                         for m in r["oracle"]:
                             tag = re.match(r"^(?:\([^)]*\) )?(?:C16 history engine[^:]*: )?(C\d\d)\b", m)
-                            if not (tag and "tags" in cfg and tag.group(1) not in allowed):
+                            if not (tag and (("tags" in cfg and tag.group(1) not in allowed) or tag.group(1) in cfg.get("exclude_tags", []))):
                                 rel.append(m)
                         _, u = classify(prop, rel, known)
                         if u:
